@@ -1,4 +1,5 @@
 import MM.Props.C14
+import MM.Props.ScoreTie
 
 #print axioms MM.HeapDict.C14_sorted
 #print axioms MM.HeapDict.C14_length
@@ -8,3 +9,6 @@ import MM.Props.C14
 #print axioms MM.HeapDict.C14_get_count
 #print axioms MM.HeapDict.C14_get_prefix
 #print axioms MM.HeapDict.C14_get_prefix_idx
+#print axioms MM.Search.tie_score_fields
+#print axioms MM.Search.tie_score_exprs
+#print axioms MM.Search.tie_score_order
